@@ -43,9 +43,11 @@ HARNESSES = [
        desc='as ets_2t with 2 free slices per thread', bounds={'threads': 2, 'free_rounds': 2, 'forced_rounds': 2, 'unroll': 1, 'slots': '4->8', 'hash_bits': 3}),
   dict(name='ets_2t_k2', unit='ets2k2', harness='h_ets.c', defines={'NT': 2, 'ROUNDS': 1, 'HBITS': 3}, tiers=['thorough'], timeout=3000, mem_gb=8, cbmc=['--unwind', '19'], scenarios=ETS_SC,
        desc='as ets_2t with every loop unrolled twice (two probe steps / two CAS retries inside one slice)', bounds={'threads': 2, 'free_rounds': 1, 'forced_rounds': 2, 'unroll': 2, 'slots': '4->8', 'hash_bits': 3}),
-  dict(name='ets_retry_3t', unit='ets3', harness='h_ets.c', defines={'NT': 3, 'ROUNDS': 1, 'FORCED': 3, 'HBITS': 3, 'MAXLG': 3, 'PRE': 0, 'COVER_RETRY': None}, tiers=['thorough'], timeout=3000, mem_gb=8, cbmc=['--unwind', '19'],
-       desc='empty table, three first accesses (counts 1,2,3): the grower wanting 8 slots loses its CAS on my_root to a 4-slot array, retries with r = new_r and completes (witness assumption COVER_RETRY)',
-       bounds={'threads': 3, 'free_rounds': 1, 'forced_rounds': 3, 'unroll': 1, 'slots': '4 vs 8', 'hash_bits': 3}),
+  dict(name='ets_retry_3t', unit='ets3', harness='h_ets.c', tiers=['thorough'], timeout=3600, mem_gb=8, cbmc=['--unwind', '19'],
+       defines={'NT': 3, 'PRE': 0, 'HBITS': 3, 'MAXLG': 3, 'H0': 1, 'H1': 3, 'H2': 6, 'SCHED_RETRY': None, 'COVER_RETRY': None, 'RELOOK': 2},
+       desc='empty table, three first accesses (counts 1,2,3): the grower that wants 8 slots loses its CAS on my_root to a 4-slot array (new_r->lg_size < s), loops with r = new_r, '
+            'retries and completes its insert (witness assumption COVER_RETRY: reachable); final table walk + second lookup of every id after quiescence (exists must be true)',
+       bounds={'threads': 3, 'schedule': 'a* b* c* c* | A B C C (free | forced slices)', 'relook_slices': 2, 'unroll': 1, 'slots': '4 vs 8', 'hash': 'concrete 1,3,6 (3 bits)'}),
   dict(name='ets_3t', unit='ets3', harness='h_ets.c', defines={'NT': 3, 'ROUNDS': 1, 'HBITS': 4, 'MAXLG': 4}, tiers=['thorough'], timeout=3000, mem_gb=8, cbmc=['--unwind', '35'],
        scenarios=[{'PRE': 2, 'H3': 9, 'H4': 9}],
        desc='ets_base::table_lookup, 3 first accesses on a table with 2 elements: inserts 3,4,5 cross 4->8 and 8->16 slots', bounds={'threads': 3, 'free_rounds': 1, 'forced_rounds': 2, 'unroll': 1, 'slots': '4->8->16', 'hash_bits': 4}),
@@ -61,6 +63,7 @@ OUTSIDE = [
   'the once-function body itself (observer calls only) and exceptions other than one user type caught by catch(...)',
   'enumerable_thread_specific::create_local / concurrent_vector my_locals / allocator (stubbed at the ets_base virtuals) and therefore combine_each, iteration, range(), clear(), copy/move of the container; combinable (thin wrapper over it)',
   'ets_key_per_instance (native TLS fast path: pthread_getspecific) and ets_suspend_aware key selectors',
+  'the CAS-retry path of the grow block is covered only by ets_retry_3t (thorough; empty table, 4 vs 8 slots, concrete hashes, targeted schedule shape); retries against two successive smaller arrays are not covered',
   'tables beyond 16 slots / more than 5 ids; more than 2 (quick) or 3 loop iterations per scheduling slice (paths needing more are cut by the round bound, silently: coverage witnesses COVER=k and the mutation table in NOTES.md show what is reached)',
   'non-SC memory models (the relaxed loads of slot keys and the plain store of slot::ptr are only checked under sequential consistency)',
 ]
